@@ -23,7 +23,8 @@ def main():
         return 2
     res = {}
     env = dict(os.environ, REPO=repo, VERIF_BUILD_DIR=os.path.join(scratch, "build"),
-               VERIF_OUT_DIR=os.path.join(scratch, "out"), VERIF_EVIDENCE_DIR=os.path.join(scratch, "evidence"))
+               VERIF_OUT_DIR=os.path.join(scratch, "out"), VERIF_EVIDENCE_DIR=os.path.join(scratch, "evidence"),
+               VERIF_GEN_DIR=os.path.join(scratch, "gen"))
     for p in props:
         pf = os.environ.get("VERIF_PROPS_EXTRA") if p.startswith("X") else os.path.join(ROOT, "props", p + ".json")
         cfg = json.load(open(pf))
